@@ -86,7 +86,9 @@ def trivial(c, out):
 
 def gen_cases(ctx, n_each):
     rng = ctx.rng
-    cases = {"diff-derived": [], "shifted-repetitive": [], "random-hunks": [], "create-delete": [], "stacks": []}
+    cases = {"diff-derived": [], "shifted-repetitive": [], "random-hunks": [], "create-delete": [], "stacks": [], "cr-lf-twins": []}
+    for _ in range(n_each // 2):
+        cases["cr-lf-twins"].append(l1gen.cr_twins(rng, l1gen.gen_modify(rng)))
     for _ in range(n_each // 2):
         cases["shifted-repetitive"].append(l1gen.gen_shifted_repetitive(rng))
     for _ in range(n_each * 3):
@@ -122,6 +124,9 @@ def corpus():
         # seeded C11-f: an offset carried to a hunk that states (almost) the largest line number
         {"mf": F([1, 2, 3]), "patches": [P([h(0, 0, 0, 0, [2], [9]), h((1 << 63) - 2, (1 << 63) - 2, 0, 0, [7], [8])])]},
         {"mf": F([1, 2, 3]), "patches": [P([h(0, 0, 0, 0, [3], [9]), h((1 << 63) - 2, (1 << 63) - 1, 0, 0, [], [8])])]},
+        # seeded C02-g: a line and its CR-LF twin are different lines
+        {"mf": F([1, 2, 3, 4]), "patches": [P([h(1, 1, 1, 1, [2, 1000003, 4], [2, 9, 4])])]},
+        {"mf": F([1000001, 1000002, 1000003]), "patches": [P([h(0, 0, 1, 1, [1, 2, 3], [1, 9, 3])])]},
         # seeded C03-a: suffix fuzz and frozen line
         {"mf": F([1, 2, 3, 4, 5, 6, 7, 8]), "patches": [P([h(1, 1, 1, 2, [2, 3, 4, 9], [2, 30, 4, 9]), h(2, 2, 0, 0, [3, 4], [31, 41])], 0, 0, 2)]},
         # seeded C02-a: match only in the last slot, expected line beyond the file
